@@ -905,6 +905,32 @@ func (c *Ctx) expirableWrapper(r *lruRoles, rule string) {
 			return isNow && ir.CalleeFullName(now) == "time.Now"
 		})
 	}
+	// the moment the staleness is judged against is taken before the lookup: the lookup may be the miss that creates the
+	// item, and an item whose expiry lies between the entry of the call and the end of its own creation would be judged
+	// stale right after it was inserted (removed - a delete callback for a resident entry - and created a second time)
+	{
+		first := gocs[0]
+		for _, g := range gocs {
+			if ir.Dominates(g, first) {
+				first = g
+			}
+		}
+		for _, rm := range rems {
+			for _, f := range ir.Facts(rm.Block()) {
+				ff := f.StripNot()
+				_, nowV, ok := staleTestH(ff.Cond, 0)
+				if !ok {
+					continue
+				}
+				now, isNow := ir.Resolve(nowV).(*ssa.Call)
+				if !isNow || ir.CalleeFullName(now) != "time.Now" {
+					continue
+				}
+				c.Decide(rule, fn, "staleness judged against a clock read before the lookup", now, now.Parent() == fn && ir.Dominates(now, first),
+					"the clock the staleness test uses is read after the lookup: an item created by this very call whose expiry passes while it is being created is removed again at once and created a second time - one miss runs the create function twice and fires the delete callback for an entry that stays resident in the reference cache")
+			}
+		}
+	}
 	for _, rm := range rems {
 		c.Decide(rule, fn, "Remove only on the expired edge", rm, isExpired(rm.Block(), true), "the wrapper removes an item that is not expired (GetExpiresAt().Before(now))")
 		c.NoFlow(rule, "expired item is created again", rm, ir.Flow{Fn: fn, From: rm,
@@ -959,6 +985,7 @@ func (c *Ctx) expirableWrapper(r *lruRoles, rule string) {
 }
 
 func runC09(c *Ctx) {
+	mapRules(c, "C09.M")
 	r := resolveLRURoles(c)
 	mpath := "recv." + r.mutex.Name()
 	lv := r.locks
